@@ -138,6 +138,7 @@ _LEXICAL_MSGS = (
     "invalid string escape", "numbers are finite", "invalid string block",
     "unterminated", "text block", "junk after", "missing quotes", "comment too short",
     "unexpected end of text block", "invalid number literal",
+    "verbatim string missing opening quotes",
 )
 
 
